@@ -176,9 +176,10 @@ struct FaultCtl
     bool fired = false;
     int fired_kind = FK_NONE;
 };
+// per thread: in the threaded engine every simulated thread has its own window state
 inline FaultCtl& fctl()
 {
-    static FaultCtl f;
+    static thread_local FaultCtl f;
     return f;
 }
 extern Counter c_alloc_fired, c_throw_fired, c_alloc_sites, c_throw_sites;
@@ -248,6 +249,13 @@ inline AllocTrack& atrack()
 {
     static AllocTrack t;
     return t;
+}
+// an engine may make allocations inside the code under test a scheduler yield point
+using AllocHook = void (*)();
+inline AllocHook& alloc_hook()
+{
+    static AllocHook h = nullptr;
+    return h;
 }
 
 // RAII: the code under test runs inside a window; harness bookkeeping outside.
@@ -471,6 +479,10 @@ struct ReplayFile
     int64_t run = -1;
     Plan plan;
     Violation expect;
+    // "range" replay: the violation shows in run `range_to` only when runs range_from.. are
+    // executed before it in the same process (state the code under test keeps across calls)
+    bool is_range = false;
+    uint64_t range_from = 0, range_to = 0;
 };
 
 inline std::string replay_to_string(const Engine& e, const ReplayFile& r)
@@ -652,6 +664,21 @@ inline bool parse_replay(const Engine& e, const std::string& text, ReplayFile& r
                 }
             }
             r.plan.ops.push_back(op);
+        }
+        else if (w == "range")
+        {
+            std::string kv;
+            r.is_range = true;
+            while (ls.next(kv))
+            {
+                auto eq = kv.find('=');
+                if (eq == std::string::npos)
+                    continue;
+                if (kv.substr(0, eq) == "from")
+                    r.range_from = std::stoull(kv.substr(eq + 1));
+                else if (kv.substr(0, eq) == "to")
+                    r.range_to = std::stoull(kv.substr(eq + 1));
+            }
         }
         else if (w == "choices")
         {
